@@ -104,6 +104,10 @@ pub trait Property: Sync {
     fn components(&self) -> serde_json::Value;
     fn runs_for(&self, tier: &str) -> usize;
     fn sample(&self, scenario: &Scenario) -> serde_json::Value;
+    /// Additional evidence (e.g. stub calibration status).
+    fn extra_evidence(&self) -> serde_json::Value {
+        serde_json::Value::Null
+    }
 }
 
 pub fn shrink(prop: &dyn Property, scenario: Scenario, sig: &ViolationSig, budget: usize) -> (Scenario, Violation, usize) {
@@ -373,6 +377,7 @@ pub fn run_batch(prop: &dyn Property, tier: &str, seed: u64) -> BatchOutcome {
             "known_findings_hit": known_hits.iter().map(|(id, (_, c))| json!({"id": id, "reports": c})).collect::<Vec<_>>(),
             "harness_errors": harness_errors,
             "components": prop.components(),
+            "extra": prop.extra_evidence(),
             "workers": workers,
         },
         "assumptions": prop.assumptions(),
